@@ -59,7 +59,9 @@ var replaceMenu = map[string][2]string{
 	"rot2":  {"^(..)(.*)$", "$2$1"}, // the first two characters go to the end (no match across a newline)
 }
 var extractMenu = map[string]string{
-	"kv": "^(?P<f4>[a-c]+)=(?P<f5>[a-c]*)", // f4 := leading run of a-c before '=', f5 := run of a-c after it (may be empty)
+	"kv":  "^(?P<f4>[a-c]+)=(?P<f5>[a-c]*)",       // f4 := leading run of a-c before '=', f5 := run of a-c after it (may be empty)
+	"opt": "^(?P<f4>[a-c]+)(?:=(?P<f5>[a-c]+))?", // f4 := leading run of a-c; f5 := run after '=' only if that group takes part in the match
+	"alt": "^(?:(?P<f4>a+)|(?P<f5>b+))",          // exactly one of the two groups takes part
 }
 var matchMenu = map[string][2]string{ // op -> (tag, expression)
 	"re_allA":   {"!!regex", "^a+$"},
@@ -509,6 +511,10 @@ func Main(args []string) int {
 		runProgram([]*node{{t: "replace", key: 1, pat: pat}, {t: "replace", key: 1, pat: "runsA"}, {t: "replace", key: 3, pat: pat}}, recsA, nil)
 	}
 	runProgram([]*node{{t: "extract", key: 1, pat: "kv"}}, recsA, nil)
+	for _, pat := range []string{"opt", "alt"} { // a group that takes no part in the match leaves its (non-empty) field alone
+		runProgram([]*node{{t: "extract", key: 1, pat: pat}}, recsA, nil)
+		runProgram([]*node{{t: "extract", key: 1, pat: pat}, {t: "extract", key: 4, pat: "alt"}, {t: "addFields", dest: 3, parts: [][]any{{"var", 4}, {"lit", "/"}, {"var", 5}}}}, recsA, nil)
+	}
 	runProgram([]*node{{t: "extract", key: 1, pat: "kv"}, {t: "if", match: []matchItem{{idx: 5, op: "any"}}, then: []*node{{t: "addFields", dest: 3, parts: [][]any{{"var", 4}, {"lit", "/"}, {"var", 5}}}}}}, recsA, nil)
 	for _, op := range []string{"re_allA", "re_bdotc", "gl_astarb", "gl_alt"} {
 		runProgram([]*node{{t: "if", match: []matchItem{{idx: 1, op: op}}, then: []*node{{t: "addFields", dest: 3, parts: [][]any{{"lit", "hit"}}}}},
